@@ -280,7 +280,7 @@ def M_orderable(ids):
     try:
         sorted(ids)
         return True
-    except TypeError:
+    except Exception:
         return False
 
 
